@@ -29,6 +29,8 @@ pub mod c15;
 pub mod c16;
 #[cfg(feature = "sched")]
 pub mod c20s;
+#[cfg(feature = "sched")]
+pub mod reload_atomic;
 
 pub fn run(id: &str, o: &Opts, stats: &mut Stats) -> Option<usize> {
     match id {
@@ -36,13 +38,29 @@ pub fn run(id: &str, o: &Opts, stats: &mut Stats) -> Option<usize> {
         "C02" => c02::run(o, stats),
         "C03" => c03::run(o, stats),
         "C04" => c04::run(o, stats),
+        #[cfg(not(feature = "sched"))]
         "C05" => c05::run(o, stats),
+        // the schedule-explorer build runs the second part: a kept rule stays in force during an update
+        #[cfg(feature = "sched")]
+        "C05" => reload_atomic::run(&[reload_atomic::Fam::Iso], &reload_atomic::REPLACEMENTS, o, stats),
         "C06" => c06::run(o, stats),
         "C07" => c07::run(o, stats),
         "C08" => c08::run(o, stats),
+        #[cfg(not(feature = "sched"))]
         "C09" => c09::run(o, stats),
+        // the schedule-explorer build runs the second part: a kept rule stays in force during an update
+        #[cfg(feature = "sched")]
+        "C09" => reload_atomic::run(&[reload_atomic::Fam::Sys], &reload_atomic::REPLACEMENTS, o, stats),
+        #[cfg(not(feature = "sched"))]
         "C10" => c10::run(o, stats),
+        // the schedule-explorer build runs the second part: an append never disables an active rule
+        #[cfg(feature = "sched")]
+        "C10" => reload_atomic::run(&reload_atomic::ALL_FAMS, &[reload_atomic::Upd::Append], o, stats),
+        #[cfg(not(feature = "sched"))]
         "C11" => c11::run(o, stats),
+        // the schedule-explorer build runs the second part: a kept rule stays in force during an update
+        #[cfg(feature = "sched")]
+        "C11" => reload_atomic::run(&[reload_atomic::Fam::Flow, reload_atomic::Fam::Hotspot, reload_atomic::Fam::Cb], &reload_atomic::REPLACEMENTS, o, stats),
         "C12" => c12::run(o, stats),
         "C13" => c13::run(o, stats),
         "C17" => c17::run(o, stats),
